@@ -992,4 +992,257 @@ theorem diffs_const (g : Nat → Rat) (c : Rat) (hg : ∀ j, g (j + 1) - g j = c
       · apply ih (a + 1) x
         simpa only [List.range'_succ, List.map_cons] using hx
 
+/-! ## gaps allowed: smallest gap, multiples, rounding -/
+
+theorem foldl_min_le (l : List Rat) : ∀ a : Rat, l.foldl min a ≤ a ∧ ∀ x ∈ l, l.foldl min a ≤ x := by
+  induction l with
+  | nil => intro a; exact ⟨le_refl _, fun x hx => by cases hx⟩
+  | cons y ys ih =>
+    intro a
+    obtain ⟨h1, h2⟩ := ih (min a y)
+    simp only [List.foldl_cons]
+    refine ⟨le_trans h1 (min_le_left _ _), ?_⟩
+    intro x hx
+    rcases List.mem_cons.mp hx with rfl | hx
+    · exact le_trans h1 (min_le_right _ _)
+    · exact h2 x hx
+
+theorem foldl_min_mem (l : List Rat) : ∀ a : Rat, l.foldl min a = a ∨ l.foldl min a ∈ l := by
+  induction l with
+  | nil => intro a; left; rfl
+  | cons y ys ih =>
+    intro a
+    simp only [List.foldl_cons]
+    rcases ih (min a y) with h | h
+    · rcases min_choice a y with h' | h'
+      · left; rw [h, h']
+      · right; rw [h, h']; exact List.mem_cons_self
+    · right; exact List.mem_cons_of_mem _ h
+
+/-- `min()` of a non-empty list is its least element -/
+theorem minList_eq {l : List Rat} {m : Rat} (hm : m ∈ l) (hle : ∀ x ∈ l, m ≤ x) : minList l = some m := by
+  cases l with
+  | nil => cases hm
+  | cons a as =>
+    simp only [minList, Option.some.injEq]
+    obtain ⟨h1, h2⟩ := foldl_min_le as a
+    apply le_antisymm
+    · rcases List.mem_cons.mp hm with rfl | hm'
+      · exact h1
+      · exact h2 m hm'
+    · rcases foldl_min_mem as a with h | h
+      · rw [h]; exact hle a List.mem_cons_self
+      · exact hle _ (List.mem_cons_of_mem _ h)
+
+/-- every element of `np.diff` of `g 0 … g (N−1)` is a consecutive difference -/
+theorem diffs_elem (g : Nat → Rat) : ∀ (n a : Nat), ∀ x ∈ diffs ((List.range' a n).map g),
+    ∃ j, a ≤ j ∧ j + 1 < a + n ∧ x = g (j + 1) - g j := by
+  intro n
+  induction n with
+  | zero => intro a x hx; simp [diffs] at hx
+  | succ n ih =>
+    intro a x hx
+    cases n with
+    | zero => simp [List.range', diffs] at hx
+    | succ m =>
+      simp only [List.range'_succ, List.map_cons, diffs, List.mem_cons] at hx
+      rcases hx with rfl | hx
+      · exact ⟨a, le_refl _, by omega, rfl⟩
+      · have hx' : x ∈ diffs ((List.range' (a + 1) (m + 1)).map g) := by
+          simpa only [List.range'_succ, List.map_cons] using hx
+        obtain ⟨j, h1, h2, h3⟩ := ih (a + 1) x hx'
+        exact ⟨j, by omega, by omega, h3⟩
+
+/-- the least distance of a stack along a line, whatever the input order -/
+theorem minList_mono {g : Nat → Rat} (hg : StrictMono g) {js : List Nat} {M : Nat} (hp : js.Perm (List.range (M + 1))) :
+    minList (js.map g) = some (g 0) := by
+  apply minList_eq
+  · exact List.mem_map_of_mem (hp.mem_iff.mpr (by simp))
+  · intro x hx
+    obtain ⟨j, _, rfl⟩ := List.mem_map.mp hx
+    exact hg.monotone (Nat.zero_le j)
+
+theorem roundHalfEven_natCast (n : Nat) : roundHalfEven ((n : Nat) : Rat) = (n : Int) := by
+  have := roundHalfEven_intCast (n : Int)
+  simpa using this
+
+/-- the gaps branch on a stack with missing planes: present planes `j = 0 … M` (in order of distance) carry the
+plane numbers `k j` (`k` strictly increasing, `k 0 = 0`); the spacing is known from the hint or from two
+neighbouring planes that are both present. -/
+theorem examine_gaps (o nrm : V3) (hn : nrm.dot nrm = 1) {s : Rat} (hs : 0 < s) (k : Nat → Nat) (hk : StrictMono k)
+    (hk0 : k 0 = 0) {js : List Nat} {M : Nat} (hM : 1 ≤ M) (hp : js.Perm (List.range (M + 1)))
+    (hint : Option Rat)
+    (hsp : hint = some s ∨ (hint = none ∧ (∃ j, j < M ∧ k (j + 1) = k j + 1) ∧ isClose s 0 npRtol eqTol = false))
+    {rtol atol : Rat} (hr : 0 ≤ rtol) (ha : 0 ≤ atol) (enforce : Bool) :
+    examine nrm (js.map fun j => planePos o nrm s (k j)) true true hint rtol atol enforce
+      = .ok (some (s, js.map fun j => ((k j : Nat) : Int))) := by
+  set c := nrm.dot o with hc
+  let g : Nat → Rat := fun j => gdist c s (k j)
+  have hg : StrictMono g := fun a b h => gdist_lt hs (hk h)
+  have hlen : js.length = M + 1 := by rw [hp.length_eq, List.length_range]
+  have h0 : 0 ∈ js := hp.mem_iff.mpr (by simp)
+  have hMm : M ∈ js := hp.mem_iff.mpr (by simp)
+  have hd : (js.map fun j => planePos o nrm s (k j)).map nrm.dot = js.map g := by
+    rw [List.map_map]; apply List.map_congr_left; intro j _; exact dot_planePos o nrm s hn (k j)
+  -- the spacing found
+  have hmin : hint = none → minList (diffs ((List.range (M + 1)).map g)) = some s := by
+    intro hnone
+    rcases hsp with h | ⟨_, ⟨j, hj, hkj⟩, _⟩
+    · rw [hnone] at h; cases h
+    · apply minList_eq
+      · have := diffs_mem g (M + 1) j (by omega)
+        have e : g (j + 1) - g j = s := by
+          simp only [g, gdist, hkj]; push_cast; ring
+        rw [e] at this; exact this
+      · intro x hx
+        rw [List.range_eq_range'] at hx
+        obtain ⟨i, _, _, rfl⟩ := diffs_elem g _ _ x hx
+        have h1 : k i + 1 ≤ k (i + 1) := hk (Nat.lt_succ_self i)
+        have h2 : ((k i : Nat) : Rat) + 1 ≤ ((k (i + 1) : Nat) : Rat) := by exact_mod_cast h1
+        simp only [g, gdist]
+        nlinarith
+  have hmult : (js.map g).map (fun x => (x - g 0) / s) = js.map fun j => ((k j : Nat) : Rat) := by
+    rw [List.map_map]
+    apply List.map_congr_left
+    intro j _
+    simp only [Function.comp, g, gdist, hk0]
+    rw [div_eq_iff (ne_of_gt hs)]; push_cast; ring
+  have hround : (js.map fun j => ((k j : Nat) : Rat)).map roundHalfEven = js.map fun j => ((k j : Nat) : Int) := by
+    rw [List.map_map]; apply List.map_congr_left; intro j _; exact roundHalfEven_natCast (k j)
+  have hreg : (((js.map fun j => ((k j : Nat) : Rat)).zip (js.map fun j => ((k j : Nat) : Int))).all
+      fun mr => isClose mr.1 (mr.2 : Rat) rtol atol) = true := by
+    rw [List.zip_map', List.all_map, List.all_eq_true]
+    intro j _
+    simp only [Function.comp, Int.cast_natCast]
+    exact isClose_self _ rtol atol hr ha
+  have hkM : ((k M : Nat) : Rat) * s ≠ 0 := by
+    have h1 : M ≤ k M := hk.le_apply
+    have h2 : (1 : Rat) ≤ ((k M : Nat) : Rat) := by exact_mod_cast (le_trans hM h1)
+    have : 0 < ((k M : Nat) : Rat) * s := by positivity
+    exact ne_of_gt this
+  have hspan : (planePos o nrm s (k M)).sub (planePos o nrm s (k 0)) = V3.smul (((k M : Nat) : Rat) * s) nrm := by
+    rw [hk0]; exact planePos_span o nrm s (k M)
+  have hns : ¬ s < 0 := not_lt.mpr (le_of_lt hs)
+  have hspm : spacingMissing (js.map g) ((List.range (M + 1)).map g) hint rtol atol
+      = .ok (some (s, true, js.map fun j => ((k j : Nat) : Int))) := by
+    unfold spacingMissing
+    rcases hsp with h | ⟨h, _, hz⟩
+    · subst h
+      simp only [minList_mono hg hp, hmult, hround, hreg, bind, Except.bind, pure, Except.pure]
+    · have hm := hmin h
+      subst h
+      simp only [hm, hz, minList_mono hg hp, hmult, hround, hreg, bind, Except.bind, pure, Except.pure,
+        Bool.false_eq_true, if_false]
+  unfold examine
+  simp only [hd, if_true, ranks_mono hg hp, sortRat_mono hg hp, hspm, bind, Except.bind, pure, Except.pure,
+    List.length_map, hlen, Nat.add_sub_cancel, Bool.true_and,
+    atRank_map (fun j => planePos o nrm s (k j)) js 0 h0, atRank_map (fun j => planePos o nrm s (k j)) js M hMm,
+    hspan, isPerpendicular_smul nrm hn hkM, rabs_of_pos hs, hns, decide_false, Bool.and_false, Bool.false_eq_true,
+    if_false]
+
+
+theorem readIndices_map' {β} [DecidableEq β] {f : Nat → β} (hf : Function.Injective f) (G : Nat → Int) (js' js : List Nat)
+    (hsub : ∀ j ∈ js, j ∈ js') :
+    readIndices (js'.map G) (js.map fun j => (js'.map f).idxOf (f j)) = .ok (js.map G) := by
+  unfold readIndices
+  induction js with
+  | nil => rfl
+  | cons j js ih =>
+    have hj : j ∈ js' := hsub j (List.mem_cons_self)
+    have ih' := ih (fun k hk => hsub k (List.mem_cons_of_mem _ hk))
+    simp only [List.map_cons, List.mapM_cons, idxOf_map_injective hf, getElem?_idxOf_map G j js' hj, bind,
+      Except.bind, pure, Except.pure] at ih' ⊢
+    rw [ih']
+
+/-- **stacks with gaps are recognised** (rows parsed, normal given, `allow_missing_positions`): planes
+`o + k_j·s·n` for the present planes `j = 0 … M` (`k` strictly increasing, `k 0 = 0`), input in any order,
+duplicates when declared; spacing from the hint or from two present neighbours. -/
+theorem volumePositionsOf_gaps (o nrm : V3) (hn : nrm.dot nrm = 1) {s : Rat} (hs : 0 < s) (k : Nat → Nat) (hk : StrictMono k)
+    (hk0 : k 0 = 0) (js : List Nat) {M : Nat} (hM : 1 ≤ M) (hmem : ∀ j, j ∈ js ↔ j < M + 1) (op : Opts)
+    (hsort : op.sort = true) (hmiss : op.allowMissing = true) (hdup : op.allowDuplicate = true ∨ js.Nodup)
+    (hint : Option Rat)
+    (hsp : hint = some s ∨ (hint = none ∧ (∃ j, j < M ∧ k (j + 1) = k j + 1) ∧ isClose s 0 npRtol eqTol = false))
+    {rtol atol : Rat} (hr : 0 ≤ rtol) (ha : 0 ≤ atol) :
+    volumePositionsOf nrm (js.map fun j => planePos o nrm s (k j)) op hint rtol atol
+      = .ok (some (s, js.map fun j => ((k j : Nat) : Int))) := by
+  have hfg : ∀ j, nrm.dot (planePos o nrm s (k j)) = gdist (nrm.dot o) s (k j) := fun j => dot_planePos o nrm s hn (k j)
+  have hg : StrictMono fun j => gdist (nrm.dot o) s (k j) := fun a b h => gdist_lt hs (hk h)
+  have hinj := line_injective nrm _ _ hfg hg
+  obtain ⟨js', hp', hu⟩ := uniqueRows_line nrm _ _ hfg hg js (M + 1) hmem
+  have hlen' : js'.length = M + 1 := by rw [hp'.length_eq, List.length_range]
+  have hck : (!op.allowDuplicate && decide (M + 1 < js.length)) = false := by
+    rcases hdup with h | h
+    · simp [h]
+    · have : js.Perm (List.range (M + 1)) := by
+        rw [List.perm_ext_iff_of_nodup h List.nodup_range]
+        intro j; rw [hmem j, List.mem_range]
+      have hl : js.length = M + 1 := by rw [this.length_eq, List.length_range]
+      simp [hl]
+  have hex := examine_gaps o nrm hn hs k hk hk0 hM hp' hint hsp hr ha op.enforce
+  have hread := readIndices_map' hinj (fun j => ((k j : Nat) : Int)) js' js
+    (fun j hj => hp'.mem_iff.mpr (by simpa using (hmem j).mp hj))
+  have hne : ¬ M + 1 = 1 := by omega
+  have hidx : (indexIn (js'.map fun j => planePos o nrm s (k j)) ∘ fun j => planePos o nrm s (k j))
+      = fun j => (js'.map fun j => planePos o nrm s (k j)).idxOf (planePos o nrm s (k j)) := rfl
+  unfold volumePositionsOf
+  simp only [hsort, if_true, hu, List.length_map, hlen', hmiss, hex, hck, hne, Bool.false_eq_true, if_false,
+    bind, Except.bind, pure, Except.pure, List.map_map, hidx, hread]
+
+/-- lifting any decision of the examination step (sorting on) on a stack along a line to the whole function: if
+for EVERY order `js'` of the planes the examination answers `R` with indices `js'.map G`, the function answers
+`R` with indices `js.map G` for the input order `js` (duplicates when declared). -/
+theorem volumePositionsOf_lift (nrm : V3) (f : Nat → V3) (g : Nat → Rat) (hfg : ∀ j, nrm.dot (f j) = g j)
+    (hg : StrictMono g) (js : List Nat) {M : Nat} (hM : 1 ≤ M) (hmem : ∀ j, j ∈ js ↔ j < M + 1) (op : Opts)
+    (hsort : op.sort = true) (hdup : op.allowDuplicate = true ∨ js.Nodup) (hint : Option Rat) (rtol atol : Rat)
+    (G : Nat → Int) (R : Except ErrKind (Option Rat))
+    (hex : ∀ js' : List Nat, js'.Perm (List.range (M + 1)) →
+      examine nrm (js'.map f) true op.allowMissing hint rtol atol op.enforce
+        = R.map (Option.map fun sp => (sp, js'.map G))) :
+    volumePositionsOf nrm (js.map f) op hint rtol atol = R.map (Option.map fun sp => (sp, js.map G)) := by
+  have hinj := line_injective nrm f g hfg hg
+  obtain ⟨js', hp', hu⟩ := uniqueRows_line nrm f g hfg hg js (M + 1) hmem
+  have hlen' : js'.length = M + 1 := by rw [hp'.length_eq, List.length_range]
+  have hck : (!op.allowDuplicate && decide (M + 1 < js.length)) = false := by
+    rcases hdup with h | h
+    · simp [h]
+    · have : js.Perm (List.range (M + 1)) := by
+        rw [List.perm_ext_iff_of_nodup h List.nodup_range]
+        intro j; rw [hmem j, List.mem_range]
+      have hl : js.length = M + 1 := by rw [this.length_eq, List.length_range]
+      simp [hl]
+  have hread := readIndices_map' hinj G js' js (fun j hj => hp'.mem_iff.mpr (by simpa using (hmem j).mp hj))
+  have hne : ¬ M + 1 = 1 := by omega
+  have hidx : (indexIn (js'.map f) ∘ f) = fun j => (js'.map f).idxOf (f j) := rfl
+  unfold volumePositionsOf
+  simp only [hsort, if_true, hu, List.length_map, hlen', hex js' hp', hck, hne, Bool.false_eq_true, if_false,
+    bind, Except.bind, pure, Except.pure, List.map_map, hidx]
+  cases R with
+  | error e => rfl
+  | ok r =>
+    cases r with
+    | none => rfl
+    | some sp => simp only [Except.map, Option.map, hread]
+
+/-- the examination step with a spacing hint (no gaps allowed): a hint that is not within tolerance of the inferred
+spacing is REPORTED (RuntimeError), a matching hint changes nothing. -/
+theorem examine_line_hint (nrm : V3) (f : Nat → V3) (g : Nat → Rat) (hfg : ∀ j, nrm.dot (f j) = g j) (hg : StrictMono g)
+    {js : List Nat} {M : Nat} (hM : 1 ≤ M) (hp : js.Perm (List.range (M + 1))) (h rtol atol : Rat) (enforce : Bool) :
+    examine nrm (js.map f) true false (some h) rtol atol enforce
+      = if isClose ((g M - g 0) / (M : Rat)) h rtol atol then examine nrm (js.map f) true false none rtol atol enforce
+        else .error .runtime := by
+  have hlen : js.length = M + 1 := by rw [hp.length_eq, List.length_range]
+  have hd : (js.map f).map nrm.dot = js.map g := by
+    rw [List.map_map]; apply List.map_congr_left; intro j _; exact hfg j
+  have hden : (((M + 1 : Nat) : Rat)) - 1 = (M : Rat) := by push_cast; ring
+  have hpos : 0 < (g M - g 0) / (M : Rat) := by
+    have h1 : g 0 < g M := hg (by omega)
+    have h2 : (0 : Rat) < (M : Rat) := by exact_mod_cast hM
+    apply div_pos <;> linarith
+  unfold examine
+  simp only [hd, if_true, ranks_mono hg hp, sortRat_mono hg hp, Bool.false_eq_true, if_false,
+    spacingRegular, head_mono, getLast_mono, List.length_map, List.length_range, hden, rabs_of_pos hpos]
+  by_cases hc : isClose ((g M - g 0) / (M : Rat)) h rtol atol = true
+  · simp [hc]
+  · simp [hc, Except.map, bind, Except.bind]
+
 end HdVerif.Stack
